@@ -128,23 +128,34 @@ apply_rule(hx_job *j, const char *f, const char *c)
                 /* a length strictly between the permitted ones */
                 switch (sp->ha) {
                 case IMB_AUTH_HMAC_SHA_1:
-                        v = 13;
-                        break;
                 case IMB_AUTH_HMAC_SHA_224:
-                        v = 15;
-                        break;
                 case IMB_AUTH_HMAC_SHA_256:
-                        v = 17;
-                        break;
                 case IMB_AUTH_HMAC_SHA_384:
-                        v = 25;
-                        break;
                 case IMB_AUTH_HMAC_SHA_512:
-                        v = 33;
+                case IMB_AUTH_MD5: {
+                        /* permitted: the truncated (IPsec) and the full (FIPS) length - every other length 1..64;
+                         * value 0 of the sweep is the one just above the truncated length */
+                        const int tr = sp->ha == IMB_AUTH_HMAC_SHA_1     ? 12
+                                       : sp->ha == IMB_AUTH_HMAC_SHA_224 ? 14
+                                       : sp->ha == IMB_AUTH_HMAC_SHA_256 ? 16
+                                       : sp->ha == IMB_AUTH_HMAC_SHA_384 ? 24
+                                       : sp->ha == IMB_AUTH_HMAC_SHA_512 ? 32
+                                                                         : 12;
+                        const int full = sp->ha == IMB_AUTH_HMAC_SHA_1     ? 20
+                                         : sp->ha == IMB_AUTH_HMAC_SHA_224 ? 28
+                                         : sp->ha == IMB_AUTH_HMAC_SHA_256 ? 32
+                                         : sp->ha == IMB_AUTH_HMAC_SHA_384 ? 48
+                                         : sp->ha == IMB_AUTH_HMAC_SHA_512 ? 64
+                                                                           : 16;
+                        int cand[64], nc = 0;
+                        cand[nc++] = tr + 1;
+                        for (int x = 1; x <= 64; x++)
+                                if (x != tr && x != full && x != tr + 1)
+                                        cand[nc++] = x;
+                        rule_nalt = nc;
+                        v = (uint64_t) cand[rule_alt % nc];
                         break;
-                case IMB_AUTH_MD5:
-                        v = 13;
-                        break;
+                }
                 case IMB_AUTH_ZUC256_EIA3_BITLEN: {
                         /* permitted: 4, 8, 16 - every other length up to 20 */
                         static const int zt[] = { 5, 1, 2, 3, 6, 7, 9, 10, 11, 12, 13, 14, 15, 17, 18, 19, 20 };
